@@ -90,6 +90,9 @@ LONG_DOCS = [
 LONG_WINDOW_BOUND = '%d jobs: long concrete documents (35-65 bytes) with a window of one (thorough: also two) free bytes at every offset'
 
 
+LONG_STRING_DOCS = [b'["abcdefghijklmnopqrstuvwx\\nyz0123456789",{"abcdefghij\\tk":"lmnopqrstuvwxyz\\u00e9"}]', b' "abcdefghijklmnopqrstuvwxyz\\ud83d\\ude00 0123456789\\\\" ']
+
+
 def array_lane_docs(maxpad):
     """[ <pad digits> ,[4],"a",5] for every pad length: the first structural byte after '[' at every distance"""
     return [b'[' + b'1' * k + b',[4],"a",5]' for k in range(1, maxpad + 1)] + [b'[' + b' ' * k + b'[4],"a"]' for k in range(0, maxpad + 1, 3)]
@@ -546,6 +549,8 @@ def check_C03(tier, nproc=None):
     c.bounds = {'N': N, 'concrete_corpus_inputs': ncorpus, 'templates': [_tmplstr([((x[1], 'hex') if isinstance(x, tuple) and x[0] == 'hexd' else x) for x in t]) for t in TREE_TEMPLATES],
                 'sibling_size_templates': [_tmplstr(t) for t in SIBLING_TEMPLATES],
                 'depth_limit': 'templates %s with the limit scaled to 3' % [_tmplstr(t) for t in DEPTH_TREE_TEMPLATES]}
+    nwin = _window_jobs(c, 'vH_C03', [('int', 0)], tier, opts=o, docs=LONG_DOCS[:2] + LONG_STRING_DOCS[:1], weight=200)
+    c.bounds['long_document_windows'] = LONG_WINDOW_BOUND % nwin
     c.must_reach = ['C03.returned', 'C03.success']
     _std(c, ['number leaves: fp.ParseJSONFloatPrefix replaced by the contract vFloatStub (literal delimited by the reference grammar, value and overflow verdict uninterpreted functions of the literal bytes); established by C04',
              'sync.Pool.Get returns the most recently Put reader (a fresh reader is used in this check, so the pool starts empty)',
@@ -666,7 +671,14 @@ def check_C16(tier, nproc=None):
         c.add(Job('vH_C16_inputs', [('tmpl', 'd', t), ('int', 3)], weight=5000, opts=o))
         for pre, spare in [(2, 0), (2, 2), (1, 7)]:
             c.add(Job('vH_C06_bytes', [('tmpl', 'd', t), ('int', pre), ('int', spare)], weight=5000))
-    c.bounds = {'N': N, 'templates': [_tmplstr(t) for t in T], 'destinations': 'prefix 1..2 arbitrary bytes, spare capacity 0,1,3,5,n+4; dirty scratch buffers'}
+    # long documents with long escaped strings and keys, a free window at every offset: whatever block-wise or in-place
+    # decoding the string paths do on long tokens must leave the input alone and hand out memory of its own
+    nwin = 0
+    for d in LONG_STRING_DOCS:
+        for which in ((1, 3) if tier == 'quick' else (0, 1, 2, 3)):
+            nwin += _window_jobs(c, 'vH_C16_inputs', [('int', which)], tier, opts=o, docs=[d])
+        nwin += _window_jobs(c, 'vH_C16_owned', [('int', 4)], tier, opts=o, docs=[d])
+    c.bounds = {'N': N, 'templates': [_tmplstr(t) for t in T], 'destinations': 'prefix 1..2 arbitrary bytes, spare capacity 0,1,3,5,n+4; dirty scratch buffers', 'long_document_windows': LONG_WINDOW_BOUND % nwin}
     c.must_reach = ['C16.inputs', 'C16.owned', 'C06.bytes-ok']
     _std(c, ['strings are values in the encoding: a result aliasing a buffer through package unsafe cannot be represented; such code is reported as an unsupported construct (no verdict) and is only caught by the native replay of sampled inputs',
              'every store through a pointer into an input object is a monitored event (write-to-input) besides the explicit comparison with a snapshot'])
